@@ -329,7 +329,8 @@ func refererMatchesHost(c fiber.Ctx, trustedOrigins []string, trustedSubOrigins 
 		return nil
 	}
 
-	referer = refererURL.String()
+	// trusted origins are origins: compare scheme and host of the referer, never its path or query
+	referer = refererURL.Scheme + "://" + refererURL.Host
 
 	for _, trustedOrigin := range trustedOrigins {
 		if referer == trustedOrigin {
